@@ -91,6 +91,9 @@ def site_inventory(F, f):
         for n, ps in find_all(root, lambda n: n["k"] == "Call" and n["fun"]["k"] == "FnRef" and n["fun"]["name"] in ("shr", "shl")
                               and (n["fun"].get("trait") or "").startswith("std::ops::Sh")):
             out.add(("shift", n.get("line"), n.get("col")))
+        for n, ps in find_all(root, lambda n: n["k"] == "Call" and n["fun"]["k"] == "FnRef" and n["fun"]["name"] in ("add", "sub", "mul")
+                              and (n["fun"].get("trait") or "") in ("std::ops::Add", "std::ops::Sub", "std::ops::Mul")):
+            out.add(("arith", n.get("line"), n.get("col")))       # overflow-checked in debug builds for the primitive representations
         for n, ps in find_all(root, lambda n: n["k"] == "Cast"):
             src, dst = F.types[n["e"]["ty"]]["s"], F.types[n["ty"]]["s"]
             if src in RANK and dst in RANK and RANK[dst] < RANK[src]:
@@ -124,6 +127,9 @@ def trace_hooks(F, out_s):
         if last in ("shr", "shl") and "ops::Sh" in callee and len(args) == 2:
             a = it.val_force(args[1])
             it.emit("shift", amount=repr(a).replace("?", ""), lit=isinstance(a, IntV), line=n.get("line"), col=n.get("col"), how="trait")
+        if last in ("add", "sub", "mul") and callee in ("std::ops::Add::add", "std::ops::Sub::sub", "std::ops::Mul::mul") and len(args) == 2:
+            ty = F.types[n["ty"]]["s"] if n.get("ty") is not None else "?"
+            it.emit("arith", op=last.capitalize(), ty=ty, l=describe(it.val_force(args[0])), r=describe(it.val_force(args[1])), line=n.get("line"), col=n.get("col"))
         return base_call(it, callee, fnref, args, n, fr)
 
     def binop(it, op, l, r, n):
@@ -215,9 +221,8 @@ def run_config(ctx, rep, cfg, F):
             rep.bad("R17.2" if site[0] != "shift" else "R17.1", short, "site-not-evaluated:%s" % site[0], "%s (line %s): this %s is written in the function but no interpreted path "
                     "evaluates it: its safety is undecided" % (short, site[1], {"shift": "shift", "arith": "arithmetic operation", "cast": "narrowing cast"}[site[0]]),
                     kind="unrecognised", config=cfg)
-    rep.floor("shifts examined (%s)" % cfg, n_shift, 1)
-    rep.floor("arithmetic operations examined (%s)" % cfg, n_arith, 1)
-    rep.floor("narrowing casts examined (%s)" % cfg, n_cast, 1)
+    # non-vacuity of the site rules as a whole (a rewrite may legitimately remove one kind of site altogether)
+    rep.floor("shift / arithmetic / cast sites examined (%s)" % cfg, n_shift + n_arith + n_cast, 2)
     check_lcp(ctx, rep, cfg, F)
     check_from_repr_len(ctx, rep, cfg, F)
     # ---- R17.3
